@@ -12,7 +12,7 @@
    (vbi_event_enable) - these resets are the named parts NetReset / AspReset / PidReset of Enable.
    The property C13 is stated separately (Faithful, OfThisReception, OnlyAfterRepeat, NetworkMeansChange,
    OneNetworkEvent, NotAgainWhileSame, StationKept, CacheKept, CacheDropped, VpsLabelTwice, Gated,
-   WssOnlyAfterRepeats, AspectRevertOnlyOnChange) and TLC checks it over all interleavings of the carriers
+   WssOnlyAfterRepeats, AspectRevertOnlyOnChange, GapKeeps, DropOutOnce) and TLC checks it over all interleavings of the carriers
    and of the registrations.
 
    Values: a, b identify known stations, u is a code the station table does not know
@@ -20,7 +20,14 @@
    name, i.e. every name is "known" but yields ids different from the CNI table.
    Payloads vary independently of the CNI: a PDC label (VPS: PIL, PTY, PCS audio; 8/30 format 2: LCI, LUF, PRF,
    PCS, MI, PIL, PTY) or a local time (8/30 format 1: MJD, UTC, offset); "bad" is a payload the decoder must
-   refuse (8/30-2: uncorrectable Hamming error, 8/30-1: a time that is not BCD).                          *)
+   refuse (8/30-2: uncorrectable Hamming error, 8/30-1: a time that is not BCD).
+
+   Time stamps (vbi_decode): every reception is one frame.  Gap = the time stamps jump (frames were dropped): the decoder
+   desynchronises and, if none is running, arms the drop-out countdown `cd` (vbi->chswcd = 40 frames).  Every frame with
+   a regular time stamp ticks it; when it expires (CdFire, in an empty frame: Idle) the decoder assumes a channel
+   switch: vbi_chsw_reset(vbi, 0) forgets the network record, drops the cache and, if a station was identified, raises
+   a NETWORK event with a zeroed record.  The countdown is cancelled as coded: by the reset of an identified station
+   change (vbi_chsw_reset) and by a rolling page header (the sentinel page, Refill).                      *)
 EXTENDS Naturals, Sequences, FiniteSets, TLC
 
 CONSTANTS Carriers,        \* subset of {"vps", "p1", "p2", "xds"}
@@ -37,7 +44,10 @@ CONSTANTS Carriers,        \* subset of {"vps", "p1", "p2", "xds"}
           InitMasks,       \* event masks handler h1 may be registered with before the stream starts
           RegMasks,        \* event masks used by registrations in mid-stream
           Apis,            \* subset of {"reg", "add"}: vbi_event_handler_register/_unregister or the deprecated _add/_remove
-          MaxReg           \* bound on the number of registrations in mid-stream
+          MaxReg,          \* bound on the number of registrations in mid-stream
+          CdLen,           \* length of the drop-out countdown in frames (40 as coded)
+          IdleSteps,       \* numbers of consecutive empty frames with regular time stamps (action Idle), e.g. {1, 38, 40}
+          MaxGap, MaxIdle  \* bounds on the number of time stamp jumps / Idle actions (0: time stamps always regular)
 
 VARIABLES last,      \* per carrier: value stored in the network record
           cycle,     \* shared repeat state: 0 nothing, 1 first reception, 2/3 announced
@@ -54,9 +64,12 @@ VARIABLES last,      \* per carrier: value stored in the network record
           wrun,                   \* ghost: length of the current run of identical WSS words
           xcall,                  \* XDS: stored call letters ("0" = none): the station id is computed from them when present
           xrun,                   \* ghost: consecutive receptions of the same XDS name with no other XDS change or NetReset in between
+          cd,        \* drop-out countdown (vbi->chswcd): 0 = not running
+          gap,       \* ghost record: fr = regular frames since the countdown was armed, chg = a change of the identified station (from a known one) was announced since then,
+                     \*               n = number of time stamp jumps, idle = number of Idle actions
           nrecv, nreg, lastAct
 vars == <<last, cycle, nuid, vpid, cache, evs, hmask, horder, prev, vseen, ann, wlast, wrep, aspect, wrun, xcall, xrun,
-          nrecv, nreg, lastAct>>
+          cd, gap, nrecv, nreg, lastAct>>
 
 NetTypes == {"NETWORK", "NETWORK_ID"}
 AspTypes == {"ASPECT", "PROG_INFO"}         \* both are fed by the programme info record that holds the announced aspect ratio
@@ -85,6 +98,7 @@ Init == /\ last = [c \in Carriers |-> "0"] /\ cycle = 0 /\ nuid = "0" /\ vpid = 
         /\ prev = [c \in Carriers |-> "0"] /\ vseen = {} /\ ann = "none"
         /\ wlast = "none" /\ wrep = 0 /\ aspect = "init" /\ wrun = 0
         /\ xcall = "0" /\ xrun = 0
+        /\ cd = 0 /\ gap = [fr |-> 0, chg |-> FALSE, n |-> 0, idle |-> 0]
         /\ nrecv = 0 /\ nreg = 0 /\ lastAct = [a |-> "Init", m |-> hmask["h1"]]
 
 Ev(t, c, v, l, id, rec) == [t |-> t, c |-> c, v |-> v, l |-> l, nuid |-> id, cni |-> rec, call |-> IF c = "xds" THEN xcall ELSE "-"]
@@ -100,6 +114,12 @@ Always(c, v, l) == IF c = "p1" /\ "LOCAL_TIME" \in emask /\ l # "bad" THEN <<Ev(
 CniDecoded(c, l) == /\ c \in {"p1", "p2"} => emask \cap NetTypes # {}
                     /\ ~(c = "p2" /\ l = "bad")
 
+\* the frames of an action tick the countdown and the ghost; a reception is never the frame in which the countdown expires
+\* (the model lets it expire in empty frames only: Idle)
+Dec(n) == IF cd > n THEN cd - n ELSE 0
+HasNet(es) == \E i \in 1..Len(es) : es[i].t = "NETWORK"
+GapTick(n, es) == gap' = [gap EXCEPT !.fr = IF cd > 0 THEN @ + n ELSE @, !.chg = @ \/ (cd > 0 /\ HasNet(es) /\ nuid # "0")]
+
 LastAnn(es, old) == LET n == SelectSeq(es, LAMBDA e : e.t = "NETWORK") IN IF n = <<>> THEN old ELSE n[Len(n)].nuid
 
 (* the network identification part of a received VPS line / packet 8/30 format 1 or 2 / completed XDS network name *)
@@ -110,9 +130,9 @@ RecvCni(c, v, l) ==
   /\ UNCHANGED wrun
   /\ IF v # last[c]
      THEN /\ last' = [last EXCEPT ![c] = v] /\ cycle' = 1 /\ evs' = Always(c, v, l)
-          /\ vpid' = IF c = "vps" THEN l ELSE vpid
+          /\ vpid' = (IF c = "vps" THEN l ELSE vpid) /\ cd' = Dec(1)
           /\ UNCHANGED <<nuid, cache, wlast, wrep, aspect>>
-     ELSE IF cycle # 1 THEN evs' = Always(c, v, l) /\ UNCHANGED <<last, cycle, nuid, vpid, cache, wlast, wrep, aspect>>
+     ELSE IF cycle # 1 THEN evs' = Always(c, v, l) /\ cd' = Dec(1) /\ UNCHANGED <<last, cycle, nuid, vpid, cache, wlast, wrep, aspect>>
      ELSE LET id == IdOf(c, v, xcall)
               guard == IF c = "xds" THEN (XdsGuard => id # nuid) ELSE id # nuid
               reset == guard /\ nuid # "0"
@@ -133,25 +153,27 @@ RecvCni(c, v, l) ==
              /\ last' = rec
              /\ cycle' = IF c = "xds" THEN 3 ELSE 2
              /\ vpid' = IF pdc /\ l # vpid THEN l ELSE vpid
-             /\ IF reset THEN wlast' = "none" /\ wrep' = 0 /\ aspect' = "init"
-                ELSE UNCHANGED <<wlast, wrep, aspect>>
+             /\ IF reset THEN wlast' = "none" /\ wrep' = 0 /\ aspect' = "init" /\ cd' = 0       \* vbi_chsw_reset cancels the countdown
+                ELSE cd' = Dec(1) /\ UNCHANGED <<wlast, wrep, aspect>>
   /\ ann' = LastAnn(evs', ann)
 
 (* one received VPS line / packet 8/30 format 1 or 2 / completed XDS network name *)
 Recv(c, v, l) ==
+  /\ cd # 1
   /\ nrecv' = nrecv + 1 /\ lastAct' = [a |-> "Recv", c |-> c, v |-> v, l |-> l]
   /\ UNCHANGED <<hmask, horder, nreg, xcall>>
   /\ IF CniDecoded(c, l)
      THEN RecvCni(c, v, l)
-     ELSE /\ evs' = Always(c, v, l)
+     ELSE /\ evs' = Always(c, v, l) /\ cd' = Dec(1)
           /\ UNCHANGED <<last, cycle, nuid, vpid, cache, prev, vseen, ann, wlast, wrep, aspect, wrun, xrun>>
+  /\ GapTick(1, evs')
 
 (* a completed XDS "network call letters" packet.  As coded: changed letters make the stored network NAME forgotten, so
    that the next two name packets count as "changed, then repeated" and the id is computed again - from the new letters. *)
 RecvCall(v) ==
   /\ "xds" \in Carriers
   /\ nrecv' = nrecv + 1 /\ lastAct' = [a |-> "Call", v |-> v]
-  /\ evs' = <<>> /\ UNCHANGED <<nuid, vpid, cache, hmask, horder, nreg, prev, vseen, ann, wlast, wrep, aspect, wrun>>
+  /\ evs' = <<>> /\ UNCHANGED <<cd, gap, nuid, vpid, cache, hmask, horder, nreg, prev, vseen, ann, wlast, wrep, aspect, wrun>>
   /\ IF v # xcall
      THEN /\ xcall' = v /\ xrun' = 0
           /\ IF cycle # 1 THEN last' = [last EXCEPT !["xds"] = "0"] /\ cycle' = 0 ELSE UNCHANGED <<last, cycle>>
@@ -159,12 +181,17 @@ RecvCall(v) ==
 
 (* the application caches pages of the station it is tuned to (sentinel for CacheKept); Teletext pages are decoded
    only while a TTX_PAGE handler is registered *)
-Refill == /\ ~cache /\ "TTX_PAGE" \in emask
+\* The page takes three frames (header, row, terminating header); it is stored with the third: its rolling header cancels a
+\* running countdown (vbi_decode_teletext: same_header -> chswcd = 0).  While the countdown runs the page may be sent again.
+Refill == /\ (~cache \/ cd > 0) /\ "TTX_PAGE" \in emask
+          /\ cd = 0 \/ cd > 3
+          /\ cd' = 0 /\ GapTick(3, <<>>)
           /\ cache' = TRUE /\ evs' = <<>> /\ lastAct' = [a |-> "Refill"]
           /\ UNCHANGED <<last, cycle, nuid, vpid, hmask, horder, prev, vseen, ann, wlast, wrep, aspect, wrun, xcall, xrun, nrecv, nreg>>
 
 (* one received WSS line (decoded with or without a listener) *)
 RecvWss(w) ==
+  /\ cd # 1 /\ cd' = Dec(1) /\ GapTick(1, <<>>)
   /\ nrecv' = nrecv + 1 /\ lastAct' = [a |-> "Wss", w |-> w]
   /\ wrun' = IF w = wlast THEN wrun + 1 ELSE 1
   /\ UNCHANGED <<last, cycle, nuid, vpid, cache, hmask, horder, nreg, prev, vseen, ann, xcall, xrun>>
@@ -189,7 +216,7 @@ Enable(new) ==
   /\ aspect' = IF act \cap AspTypes # {} /\ emask \cap AspTypes = {}    \* AspReset: ... and the aspect ratio, when nobody listened
                THEN "init" ELSE aspect                               \* to programme info before
   /\ vpid' = IF "PROG_ID" \in act THEN "0" ELSE vpid                 \* PidReset
-  /\ UNCHANGED <<cache, prev, vseen, wlast, wrep, wrun, nrecv>>
+  /\ UNCHANGED <<cache, prev, vseen, wlast, wrep, wrun, nrecv, cd, gap>>
 
 (* vbi_event_handler_register / vbi_event_handler_add with a mask that is not empty *)
 Register(h, m, api) ==
@@ -207,7 +234,37 @@ Unregister(h, api) ==
   /\ horder' = SelectSeq(horder, LAMBDA x : x # h)
   /\ Enable(MaskOf(hmask'))
 
-Next == \/ \E c \in Carriers, v \in Vals : \E l \in PayloadsOf(c) : Recv(c, v, l)
+-----------------------------------------------------------------------------
+(* vbi_decode with a time stamp that does not continue the previous one (an empty frame after dropped ones): Teletext and
+   caption decoder desynchronise (nothing of a whole unit is pending), the countdown is armed unless it runs already.
+   (Before the first frame there is no previous time stamp; the XDS units take several frames: not combined with gaps.) *)
+Gap == /\ "xds" \notin Carriers /\ gap.n < MaxGap /\ nrecv > 0
+       /\ cd' = IF cd = 0 THEN CdLen ELSE cd
+       /\ gap' = [gap EXCEPT !.n = @ + 1, !.fr = IF cd = 0 THEN 0 ELSE @, !.chg = IF cd = 0 THEN FALSE ELSE @]
+       /\ evs' = <<>> /\ lastAct' = [a |-> "Gap"]
+       /\ UNCHANGED <<last, cycle, nuid, vpid, cache, hmask, horder, prev, vseen, ann, wlast, wrep, aspect, wrun, xcall, xrun, nrecv, nreg>>
+
+(* the countdown expires: vbi_chsw_reset(vbi, 0) *)
+CdFire == LET zero == [x \in Carriers |-> "0"]
+              e0 == IF nuid # "0" THEN <<Ev("NETWORK", "cd", "0", "-", "0", zero)>> ELSE <<>>
+              ea == IF aspect # "init" THEN <<Ev("ASPECT", "revert", "-", "-", "-", "adefault")>> ELSE <<>>
+          IN /\ last' = zero /\ cycle' = 0 /\ nuid' = "0" /\ xcall' = "0" /\ cache' = FALSE
+             /\ evs' = e0 \o ea /\ ann' = LastAnn(evs', ann)
+             /\ wlast' = "none" /\ wrep' = 0 /\ aspect' = "init" /\ cd' = 0
+             /\ UNCHANGED <<vpid, prev, vseen, wrun, xrun>>
+
+(* n empty frames with regular time stamps (vbi_decode(vbi, NULL, 0, t)) *)
+Idle(n) == /\ gap.idle < MaxIdle
+           /\ lastAct' = [a |-> "Idle", n |-> n]
+           /\ gap' = [gap EXCEPT !.idle = @ + 1, !.fr = IF cd > 0 THEN @ + (IF n < cd THEN n ELSE cd) ELSE @]
+           /\ UNCHANGED <<hmask, horder, nrecv, nreg>>
+           /\ IF cd > 0 /\ n >= cd THEN CdFire
+              ELSE /\ cd' = Dec(n) /\ evs' = <<>>
+                   /\ UNCHANGED <<last, cycle, nuid, vpid, cache, prev, vseen, ann, wlast, wrep, aspect, wrun, xcall, xrun>>
+
+Next == \/ Gap
+        \/ \E n \in IdleSteps : Idle(n)
+        \/ \E c \in Carriers, v \in Vals : \E l \in PayloadsOf(c) : Recv(c, v, l)
         \/ \E w \in WssWords : RecvWss(w)
         \/ \E v \in Calls : RecvCall(v)
         \/ Refill
@@ -232,19 +289,21 @@ NetId(s) == SelectSeq(s, LAMBDA e : e.t = "NETWORK_ID")
 \* payloads carry what was transmitted on the announcing carrier
 Faithful == \A i \in 1..Len(evs) :
               evs[i].t \in NetTypes =>
-                 /\ evs[i].cni[evs[i].c] = evs[i].v
-                 /\ evs[i].nuid = IdOf(evs[i].c, evs[i].v, xcall)
+                 IF evs[i].c = "cd" THEN evs[i].nuid = "0" /\ \A x \in Carriers : evs[i].cni[x] = "0"    \* drop-out: no station
+                 ELSE /\ evs[i].cni[evs[i].c] = evs[i].v
+                      /\ evs[i].nuid = IdOf(evs[i].c, evs[i].v, xcall)
 \* (action properties, checked as invariants over the pair (state, its last reception))
 \* every event carries the carrier, the identifier and the programme label / time of the very reception that raised it
 OfThisReception == [][\A i \in 1..Len(evs') :
                         \/ evs'[i].c = "revert"
+                        \/ /\ lastAct'.a = "Idle" /\ evs'[i].c = "cd" /\ evs'[i].t = "NETWORK"
                         \/ /\ lastAct'.a = "Wss" /\ evs'[i].t = "ASPECT" /\ evs'[i].v = lastAct'.w
                         \/ /\ lastAct'.a = "Recv" /\ evs'[i].c = lastAct'.c /\ evs'[i].v = lastAct'.v
                            /\ evs'[i].t \in {"PROG_ID", "LOCAL_TIME"} => evs'[i].l = lastAct'.l /\ evs'[i].l # "bad"
                            /\ evs'[i].t = "PROG_ID" => evs'[i].c \in {"vps", "p2"}
                            /\ evs'[i].t = "LOCAL_TIME" => evs'[i].c = "p1"]_vars
 \* an identifier is announced only on a reception that repeats the previous one of its carrier
-OnlyAfterRepeat == [][\A i \in 1..Len(evs') : evs'[i].t \in NetTypes =>
+OnlyAfterRepeat == [][\A i \in 1..Len(evs') : (evs'[i].t \in NetTypes /\ evs'[i].c # "cd") =>
                         /\ lastAct'.a = "Recv" /\ prev[lastAct'.c] = lastAct'.v /\ evs'[i].v = lastAct'.v]_vars
 \* a VPS programme label (no error protection) is announced only when the same label was received before with this CNI
 VpsLabelTwice == [][\A i \in 1..Len(evs') : (evs'[i].t = "PROG_ID" /\ evs'[i].c = "vps") =>
@@ -260,7 +319,9 @@ StationKept == [][lastAct'.a \in {"Register", "Unregister"} =>
                     /\ evs' = <<>> /\ cache' = cache
                     /\ ~NewNet(emask, MaskOf(hmask')) => UNCHANGED <<last, cycle, nuid, xcall, ann>>]_vars
 \* the cache is dropped only when the identified station changes, and then it is dropped
-CacheKept    == [][(cache /\ ~cache') => (lastAct'.a = "Recv" /\ nuid' # nuid /\ nuid # "0")]_vars
+\* (or when the drop-out countdown expires - the statement leaves open what a drop-out alone does)
+Fired == lastAct'.a = "Idle" /\ cd > 0 /\ cd' = 0
+CacheKept    == [][(cache /\ ~cache') => ((lastAct'.a = "Recv" /\ nuid' # nuid /\ nuid # "0") \/ Fired)]_vars
 CacheDropped == [][(lastAct'.a = "Recv" /\ nuid # "0" /\ nuid' # nuid) => ~cache']_vars
 \* programme label and local time are decoded for listeners only
 Gated == [][\A i \in 1..Len(evs') : evs'[i].t \in {"PROG_ID", "LOCAL_TIME"} => evs'[i].t \in emask]_vars
@@ -272,10 +333,20 @@ WssOnlyAfterRepeats == [][\A i \in 1..Len(evs') : (evs'[i].t = "ASPECT" /\ evs'[
                             /\ evs'[i].cni = AspectOf(lastAct'.w) /\ aspect # aspect']_vars
 \* the announced aspect ratio is withdrawn only together with a change of the identified station, once
 AspectRevertOnlyOnChange == [][\A i \in 1..Len(evs') : evs'[i].c = "revert" =>
-                                 /\ nuid' # nuid /\ nuid # "0" /\ aspect # "init" /\ aspect' = "init" /\ ~cache']_vars
+                                 /\ (nuid' # nuid /\ nuid # "0") \/ Fired
+                                 /\ aspect # "init" /\ aspect' = "init" /\ ~cache']_vars
+\* Across gaps in the time stamps.  A jump alone raises nothing and keeps station, repeat state and cache; a drop-out event
+\* (NETWORK without station) is raised only by the expiring countdown, names no station, and the countdown expires only
+\* after CdLen regular frames in which no station change was announced: a change of the identified station after a gap is
+\* announced by ONE network event and drops the cache once - the drop-out it explains does not reset the decoder again.
+GapKeeps   == [][lastAct'.a = "Gap" => evs' = <<>> /\ cache' = cache /\ UNCHANGED <<last, cycle, nuid, vpid, ann, aspect>>]_vars
+DropOutAct == /\ Fired => (~gap.chg /\ gap'.fr >= CdLen)
+              /\ (lastAct'.a = "Idle" /\ ~Fired) => (evs' = <<>> /\ cache' = cache /\ UNCHANGED <<last, cycle, nuid>>)
+              /\ \A i \in 1..Len(evs') : evs'[i].c = "cd" => (Fired /\ nuid # "0" /\ nuid' = "0")
+DropOutOnce == [][DropOutAct]_vars
 \* XDS alone: when the same name keeps arriving (three receptions with no other XDS change in between) the identified
 \* station is the transmitted one - a change of the call letters under an unchanged name is announced too
 XdsSettles == (Carriers = {"xds"} /\ xrun >= 3) => nuid = XId(xcall, prev["xds"])
-TypeOK == /\ cycle \in 0..3 /\ wrep \in 0..3 /\ \A h \in Handlers : hmask[h] \subseteq Types
+TypeOK == /\ cycle \in 0..3 /\ wrep \in 0..3 /\ cd \in 0..CdLen /\ \A h \in Handlers : hmask[h] \subseteq Types
           /\ \A h \in Handlers : (hmask[h] # {}) <=> (\E i \in 1..Len(horder) : horder[i] = h)
 =============================================================================
